@@ -15,6 +15,9 @@ import (
 	dbm "github.com/tendermint/tm-db"
 
 	abci "github.com/tendermint/tendermint/abci/types"
+	"github.com/tendermint/tendermint/consensus"
+	"github.com/tendermint/tendermint/proxy"
+	bstore "github.com/tendermint/tendermint/store"
 	"github.com/tendermint/tendermint/crypto"
 	"github.com/tendermint/tendermint/crypto/ed25519"
 	tmstate "github.com/tendermint/tendermint/proto/tendermint/state"
@@ -177,6 +180,22 @@ func rawOK(l []pv) bool {
 	return sum.Cmp(big.NewInt(maxTotal)) <= 0
 }
 
+// icApp: an application that owns the validator set: InitChain answers with its own list (and,
+// optionally, consensus params).
+type icApp struct {
+	abci.BaseApplication
+	vals   []abci.ValidatorUpdate
+	params bool
+}
+
+func (a *icApp) InitChain(req abci.RequestInitChain) abci.ResponseInitChain {
+	res := abci.ResponseInitChain{Validators: a.vals}
+	if a.params {
+		res.ConsensusParams = &abci.ConsensusParams{Block: &abci.BlockParams{MaxBytes: 2000000, MaxGas: 5}}
+	}
+	return res
+}
+
 type world struct {
 	cur   *types.ValidatorSet
 	db    dbm.DB
@@ -306,6 +325,94 @@ func (w *world) op(line string) string {
 			return "err-" + errClass(r, l)
 		}
 		return r
+	case "handshake":
+		ih, err := strconv.ParseInt(m["ih"], 10, 64)
+		l, ok := parseVals(m["v"], false)
+		iv, ok2 := parseVals(m["iv"], false)
+		if err != nil || !ok || !ok2 || ih < 1 || ih > 4000000000000 {
+			return "bad-op"
+		}
+		var gv []types.GenesisValidator
+		for _, v := range l {
+			pk := keyByAddr[v.addr]
+			if pk == nil {
+				return "bad-op"
+			}
+			gv = append(gv, types.GenesisValidator{PubKey: pk, Power: v.power, Name: "v"})
+		}
+		app := &icApp{params: m["cp"] == "1"}
+		for _, v := range iv {
+			pk := keyByAddr[v.addr]
+			if pk == nil {
+				return "bad-op"
+			}
+			app.vals = append(app.vals, types.TM2PB.NewValidatorUpdate(pk, v.power))
+		}
+		gd := &types.GenesisDoc{ChainID: "c08", InitialHeight: ih, Validators: gv, GenesisTime: time.Unix(1, 0).UTC()}
+		var st0 sm.State
+		r := try(func() string {
+			st, err := sm.MakeGenesisState(gd)
+			if err != nil {
+				return "err-" + errClass(err.Error(), l)
+			}
+			st0 = st
+			return ""
+		})
+		if strings.HasPrefix(r, "PANIC:") {
+			return "err-" + errClass(r, l)
+		}
+		if r != "" {
+			return r
+		}
+		r = try(func() string {
+			db := dbm.NewMemDB()
+			store := sm.NewStore(db, sm.StoreOptions{})
+			blockStore := bstore.NewBlockStore(dbm.NewMemDB())
+			pa := proxy.NewAppConns(proxy.NewLocalClientCreator(app))
+			if err := pa.Start(); err != nil {
+				return "err-proxy"
+			}
+			defer pa.Stop() //nolint
+			hs := consensus.NewHandshaker(store, st0, blockStore, gd)
+			if err := hs.Handshake(pa); err != nil {
+				if strings.Contains(err.Error(), "validator set is nil in genesis") {
+					return "err-novalidators"
+				}
+				return "err-handshake:" + err.Error()
+			}
+			st, err := store.Load()
+			if err != nil {
+				return "err-load-state"
+			}
+			if w.db != nil {
+				w.db.Close()
+			}
+			w.db, w.store, w.st = db, store, &st
+			return "ok " + showSet(st.Validators) + " / " + showSet(st.NextValidators)
+		})
+		if strings.HasPrefix(r, "PANIC:") {
+			return "hs-panic-" + errClass(r, iv)
+		}
+		return r
+	case "bootstrap":
+		if len(f) != 1 {
+			return "bad-op"
+		}
+		if w.st == nil || w.st.LastBlockHeight < 1 {
+			return "bad-op"
+		}
+		return try(func() string {
+			st2 := w.st.Copy()
+			st2.LastHeightValidatorsChanged = st2.LastBlockHeight + 2
+			db := dbm.NewMemDB()
+			store := sm.NewStore(db, sm.StoreOptions{})
+			if err := store.Bootstrap(st2); err != nil {
+				return "err-bootstrap"
+			}
+			w.db.Close()
+			w.db, w.store, w.st = db, store, &st2
+			return fmt.Sprintf("ok base=%d", st2.LastBlockHeight)
+		})
 	case "block":
 		l, ok := parseVals(m["ch"], false)
 		if !ok || w.st == nil {
@@ -938,7 +1045,12 @@ func oracle(c core.Case, out []string) []core.Finding {
 				}
 			}
 			cur = s
-		case "genesis":
+		case "bootstrap":
+			if strings.HasPrefix(o, "ok base=") {
+				b, _ := strconv.ParseInt(strings.TrimPrefix(o, "ok base="), 10, 64)
+				base = b // the fresh store holds height-1 .. height+1 of the bootstrapped state
+			}
+		case "genesis", "handshake":
 			if !strings.HasPrefix(o, "ok ") {
 				continue
 			}
@@ -954,9 +1066,25 @@ func oracle(c core.Case, out []string) []core.Finding {
 			ih, _ = strconv.ParseInt(m["ih"], 10, 64)
 			truth = map[int64]*rset{ih: a, ih + 1: b}
 			base, tip = ih, ih+1
-			fs = append(fs, checkWellformed("state.MakeGenesisState", a, false)...)
+			where := "state.MakeGenesisState"
+			src, _ := parseVals(m["v"], false)
+			if strings.Fields(op)[0] == "handshake" {
+				where = "consensus.Handshaker.genesis"
+				if iv, _ := parseVals(m["iv"], false); len(iv) > 0 {
+					src = iv // the application's list replaces the genesis one
+				}
+			}
+			fs = append(fs, checkWellformed(where, a, false)...)
+			// the first set is NewValidatorSet(list) as specified; the next one is ONE rotation ahead
+			if okRef, _ := refBatch(&rset{}, src, false); okRef {
+				if want := refIncrement(refUpdate(&rset{}, src), 1); !sameSet(want, a) {
+					fs = append(fs, core.Finding{Fingerprint: where + ".first-set-differs-from-specification", Desc: "got " + a.String() + " want " + want.String()})
+				}
+			} else {
+				fs = append(fs, core.Finding{Fingerprint: where + ".accepts-invalid-list", Desc: "accepted " + fmtPV(src)})
+			}
 			if want := refIncrement(a, 1); !sameSet(want, b) {
-				fs = append(fs, core.Finding{Fingerprint: "state.MakeGenesisState.next-not-one-rotation", Desc: "next " + b.String() + " want " + want.String()})
+				fs = append(fs, core.Finding{Fingerprint: where + ".next-not-one-rotation", Desc: "next " + b.String() + " want " + want.String()})
 			}
 		case "block":
 			if !strings.HasPrefix(o, "ok ") {
